@@ -9,6 +9,8 @@ pub mod c05;
 pub mod c06;
 pub mod c12;
 pub mod c13;
+pub mod c14;
+pub mod c16;
 
 /// returns false when the property id is unknown
 pub fn run(ctx: &mut Ctx, replay: Option<&str>) -> bool {
@@ -20,6 +22,8 @@ pub fn run(ctx: &mut Ctx, replay: Option<&str>) -> bool {
         "C06" => c06::run(ctx, replay),
         "C12" => c12::run(ctx, replay),
         "C13" => c13::run(ctx, replay),
+        "C14" => c14::run(ctx, replay),
+        "C16" => c16::run(ctx, replay),
         _ => return false,
     }
     true
